@@ -19,7 +19,7 @@ EXPLANATION = ('Splitters: loop invariants over symbolic partition tables prove 
                'rule or the sampled event), preconditions of the samplers at their call sites (no sampling with total propensity zero), result rows exactly the recorded ones. '
                'Dispatch: LineageCSimInterface.partition uses the splitter attached to the rule / event named by the division code. simulate_daughter_cells: both daughters simulated from the '
                'partition, parent/daughter links mutual, work lists stay aligned.')
-LEVEL_TEXT = 'Deductive proof for all mother states / partition tables (splitters) and all interface behaviours (single-cell loop); lineage work-list loop not covered.'
+LEVEL_TEXT = 'Deductive proof for all mother states / partition tables (splitters) and all interface behaviours (single-cell loop); the lineage work-list loop through one generic pass (call-site preconditions for every queued cell).'
 LEVEL_NOTE = 'See assumptions.'
 _HERE = os.path.dirname(os.path.dirname(os.path.abspath(__file__)))
 
